@@ -552,6 +552,18 @@ class Ctx:
             "violations": violations,
         }
         ev["coverage"].update(self.extra)
+        if self.obligations < 1 or self.discharged < 1:
+            # the Lean build or the audit did not go through (reported above as a broken obligation): no proof
+            # counts can be claimed for this run; the schema's exploration-style counts carry the evidence instead
+            declared = 0
+            try:
+                declared = len(re.findall(r"^theorem\s", open(os.path.join(LEAN_DIR, "DoviModel", "Props", self.prop + ".lean")).read(), flags=re.M))
+            except OSError:
+                pass
+            cov = ev["coverage"]
+            cov["proof_build"] = {"theorems_declared": declared, "checked": self.discharged,
+                                  "state": "lake build / axiom audit failed on this tree: see broken_proof_obligations and the replay file"}
+            del cov["obligations"], cov["discharged"]
         os.makedirs(os.path.join(VERIF, "evidence"), exist_ok=True)
         json.dump(ev, open(os.path.join(VERIF, "evidence", self.prop + ".json"), "w"), indent=1)
         for l in out_lines:
